@@ -7,7 +7,7 @@ import time
 
 import numpy as np
 
-from ..harness import T, sig_of, snapshot
+from ..harness import T, sig_of, snapshot, gradof, set_grad
 from ..symnum import engine as E
 from ..symnum import array as ar
 from ..symnum import scalar as sc
@@ -151,7 +151,7 @@ class Case:
             # gradients left on the parameters by something that ran before fit() (a probe backward, an earlier loop):
             # every update must still be computed from its own batch only
             for k, p_ in enumerate(params):
-                p_._grad = snapshot(env.arr("stale%d" % k, p_.shape))
+                set_grad(p_, snapshot(env.arr("stale%d" % k, p_.shape)))
         tm.gradient__ = True
         before_flags = (tm.gradient__, tm.retain_grads__)
         cb_train = cb_val = None
